@@ -104,9 +104,10 @@ def deep_nesting_specs():
     """a product nested ten levels deep (top P0 ... part P9); top and bottom have a facility task, the top is processed in a hall, the part in a shop first"""
     out = []
     for n in (3, 10):
-      for part_first in (True,):  # (parent and part READY together is the known nested-placement finding of section 8.2)
-          tasks = [{"name": "T0", "work": 2.0, "nf": True}, {"name": "T1", "work": 1.0, "nf": True}]
-          comps = [{"name": "P%d" % i, "tasks": ([0] if i == 0 else ([1] if i == n - 1 else [])), "children": ([i + 1] if i < n - 1 else []), "space": 1.0} for i in range(n)]
+      for part_first in (True, None):  # (parent and part READY together is the known nested-placement finding of section 8.2)
+          # part_first None: only the top component has a task (the whole assembly is carried in and out as one piece)
+          tasks = [{"name": "T0", "work": 2.0, "nf": True}] + ([{"name": "T1", "work": 1.0, "nf": True}] if part_first else [{"name": "T1", "work": 1.0}])
+          comps = [{"name": "P%d" % i, "tasks": ([0] if i == 0 else ([1] if (i == n - 1 and part_first) else [])), "children": ([i + 1] if i < n - 1 else []), "space": 1.0} for i in range(n)]
           wps = [{"name": "HALL", "cap": 1.0, "targets": [0], "facilities": [{"name": "F0", "skills": {"T0": 1.0}}]},
                  {"name": "SHOP", "cap": 1.0, "targets": [1], "facilities": [{"name": "F1", "skills": {"T1": 1.0}}]}]
           teams = [{"name": "TM0", "targets": [0, 1], "workers": [{"name": "W0", "skills": {"T0": 1.0, "T1": 1.0}, "fskills": {"F0": 1.0, "F1": 1.0}}]}]
